@@ -30,6 +30,7 @@ def lint():
     hits = []
     files = sorted(glob.glob(os.path.join(COQ, "**", "*.v"), recursive=True))
     files = [f for f in files if "/Run/" not in f]
+    files += sorted(glob.glob(os.path.join(VERIF, "work", "gen_*", "Gen", "*.v")))
     for f in files:
         src = strip_comments(open(f).read())
         for n, line in enumerate(src.split("\n"), 1):
@@ -82,6 +83,24 @@ def check_props(pid, timeout=900):
         assumptions[name] = "closed" if blk.startswith("Closed") else re.sub(r"\s+", " ", blk)[:600]
     return {"ok": r.returncode == 0, "theorems": names, "assumptions": assumptions,
             "log": (r.stdout[-1500:] + r.stderr[-3000:]) if r.returncode else ""}
+
+
+# properties whose theorems are stated about Mech/Intg.v: on every run the kernels are re-translated from the
+# source of the tree under test (harness/translate.py) and proved equal to the model (Tie/IntgTie.v)
+TIED = {"C01": ["tie_intg_rk", "tie_intg_expl_euler", "tie_discrete_system"],
+        "C03": ["tie_intg_rk", "tie_intg_expl_euler", "tie_discrete_system", "tie_builtin"],
+        "C05": ["tie_intg_rk", "tie_intg_expl_euler", "tie_discrete_system"],
+        "C08": ["tie_intg_rk", "tie_intg_expl_euler"]}
+
+
+def check_ties(pid):
+    if pid not in TIED:
+        return None
+    from .translate import check_tie
+    try:
+        return check_tie(REPO)
+    except Exception as e:
+        return {"ok": False, "stage": "tie machinery failed", "log": "%s: %s" % (type(e).__name__, e), "lemmas": [], "assumptions": {}}
 
 
 def coqchk(pid, timeout=1800):
@@ -188,6 +207,11 @@ def main(argv=None):
     pr = check_props(pid) if ok else {"ok": False, "theorems": [], "assumptions": {}, "log": "not built"}
     if ok and not pr["ok"]:
         obligations_broken.append({"what": "Props/%s.v no longer checks" % pid, "log": pr["log"]})
+    tie = check_ties(pid) if ok else None
+    if tie is not None and not tie["ok"]:
+        obligations_broken.append({"what": "the kernels translated from rockit/sampling_method.py are no longer proved equal to "
+                                           "the model Mech/Intg.v (%s; lemmas %s of Tie/IntgTie.v)" % (tie["stage"], ", ".join(TIED[pid])),
+                                   "log": tie["log"]})
     chk = None
     if tier == "thorough" and ok and pr["ok"]:
         cok, clog = coqchk(pid)
@@ -236,11 +260,12 @@ def main(argv=None):
 
     # 6. evidence
     nthm = len(pr["theorems"])
+    ntie = len(TIED.get(pid, []))
     ev = {
         "property_id": pid, "tier": tier, "seed": seed, "level": "proof",
         "coverage": {
-            "obligations": max(nthm, 1),
-            "discharged": nthm if (ok and pr["ok"]) else 0,
+            "obligations": max(nthm, 1) + ntie,
+            "discharged": (nthm if (ok and pr["ok"]) else 0) + (ntie if (tie is not None and tie["ok"]) else 0),
             "checker_cmd": "cd /verif/coq && make && coqc -Q . RV Props/%s.v%s" % (
                 pid, " && coqchk -o -Q . RV RV.Props.%s" % pid if tier == "thorough" else ""),
             "trusted_base": mod.TRUSTED + [
@@ -257,6 +282,9 @@ def main(argv=None):
             "distribution": res.get("distribution", {}),
             "lint_files": nfiles, "lint_hits": len(hits),
             "coqchk": chk,
+            "source_tie": ({"translator": "harness/translate.py (Python ast -> Gallina, fail-closed)", "generated": "work/gen_*/Gen/IntgGen.v",
+                            "tie_file": "coq/Tie/IntgTie.v", "ok": tie["ok"], "stage": tie["stage"], "lemmas": TIED[pid],
+                            "assumptions": tie.get("assumptions", {}), "generated_sha": tie.get("generated_sha")} if tie is not None else None),
             "known_findings_seen": sorted(seen_known.keys()),
             "extra": res.get("extra", {}),
         },
